@@ -3,13 +3,13 @@
 property text and the generic adversarial brief (nothing else from /verif)."""
 import json, subprocess, os, sys
 tmpl = open('/verif/tools/mutant_prompt.md').read()
-focus = json.load(open('/verif/tools/mutant_focus.json'))
+focus = json.load(open(os.environ.get('MUTANT_FOCUS', '/verif/tools/mutant_focus.json')))
 want = set(a.upper() for a in sys.argv[1:])
 for l in open('/verif/properties.jsonl'):
     p = json.loads(l); pid = p['id']
     if pid not in want:
         continue
-    wt = '/tmp/mut-' + pid.lower()
+    wt = '/tmp/mut-' + os.environ.get('MUTANT_TAG', '') + pid.lower()
     subprocess.run(['git', '-C', '/repo', 'worktree', 'remove', '--force', wt], capture_output=True)
     subprocess.run(['git', '-C', '/repo', 'worktree', 'add', '-q', wt, 'HEAD'], check=True)
     t = tmpl.replace('WORKTREE', wt)
